@@ -58,8 +58,8 @@ func c11PbScenarios(t testing.TB) []sched.Scenario {
 		}
 	}
 	return []sched.Scenario{
-		{Cost: 10, Name: "pbrsa/Flow(m0)||Flow(m1)", Setup: fresh, Threads: []func(interface{}) interface{}{flow("message zero", "md"), flow("message one, longer", "md")}},
-		{Cost: 10, Name: "pbrsa/Flow(m0,md0)||Flow(m0,md1)", Setup: fresh, Threads: []func(interface{}) interface{}{flow("message zero", "md0"), flow("message zero", "md1")}},
+		{Cost: 30, Name: "pbrsa/Flow(m0)||Flow(m1)", Setup: fresh, Threads: []func(interface{}) interface{}{flow("message zero", "md"), flow("message one, longer", "md")}},
+		{Cost: 30, Name: "pbrsa/Flow(m0,md0)||Flow(m0,md1)", Setup: fresh, Threads: []func(interface{}) interface{}{flow("message zero", "md0"), flow("message zero", "md1")}},
 	}
 }
 
